@@ -14,6 +14,7 @@ import (
 	"github.com/ChainSafe/sygma-relayer/chains/evm/executor"
 	"github.com/ChainSafe/sygma-relayer/keyshare"
 	"github.com/ChainSafe/sygma-relayer/relayer/transfer"
+	tsscommon "github.com/binance-chain/tss-lib/common"
 	ethCommon "github.com/ethereum/go-ethereum/common"
 	"github.com/rs/zerolog"
 	"github.com/rs/zerolog/log"
@@ -145,6 +146,31 @@ func init() {
 		}
 		return joinOr(out, ";")
 	}
+	// submit <cap> <tg> <props>  =>  idx,idx/gasLimit;…  : what executeBatch hands to BridgeContract.ExecuteProposals
+	ops["C14.submit"] = func(a []string) string {
+		ps, st := mkProps(a[2], "m")
+		br := &fakeBridge{status: st}
+		e := executor.NewExecutor(nil, nil, nil, br, nil, &sync.RWMutex{}, u64(a[0]), u64(a[1]))
+		bs, err := e.VerifProposalBatches(ps)
+		if err != nil {
+			return "err"
+		}
+		sig := &tsscommon.SignatureData{R: []byte{1}, S: []byte{2}, SignatureRecovery: []byte{0}}
+		for _, b := range bs {
+			if len(b.Proposals) == 0 {
+				continue
+			}
+			if _, err := e.VerifExecuteBatch(b.Proposals, b.GasLimit, sig); err != nil {
+				return "err"
+			}
+		}
+		out := []string{}
+		for _, x := range br.execArgs {
+			f := strings.Split(x, "/")
+			out = append(out, f[0]+"/"+f[1])
+		}
+		return joinOr(out, ";")
+	}
 	gens["C14"] = genC14
 }
 
@@ -221,6 +247,19 @@ func genC14(g *G) {
 			xs = append(xs, gs+":"+st)
 		}
 		g.Emit("batches", utoa(c), utoa(t), joinOr(xs, ";"))
+	}
+	// submission: the gas limit of the transaction is the batch's own gas (also for single proposals above the cap)
+	for i := 0; i < g.Count(300, 6000); i++ {
+		n := 1 + g.Intn(5)
+		xs := []string{}
+		for j := 0; j < n; j++ {
+			st := "p"
+			if g.Intn(5) == 0 {
+				st = "e"
+			}
+			xs = append(xs, []string{"n", "0", "39", "40", "41", "100", "250", "1000"}[g.Intn(8)]+":"+st)
+		}
+		g.Emit("submit", "100", []string{"60", "0", "100", "101"}[g.Intn(4)], joinOr(xs, ";"))
 	}
 	// Execute-level: which batches are hashed/signed and under which session id
 	mids := []string{"1-2-100-104", "m", "retry-1-2-7"}
